@@ -75,6 +75,17 @@ func c02Extra(quick bool) func(t harness.Tree, probe map[string]fileProbe) []har
 					out = append(out, harness.Req{Method: "MOVE", Path: p, Body: "WXYZ", Header: map[string]string{"Destination": "/moved-by-faulty-request"}, Fault: f()})
 				}
 			}
+			// the request context already cancelled when the handler starts: whatever is answered, an error
+			// answer must leave the tree alone - also a COPY / MOVE onto an EXISTING destination
+			pre := func() *harness.BodyFault {
+				return &harness.BodyFault{Chunks: []int{4}, FailAt: 0, Err: "cancelled-before"}
+			}
+			out = append(out, harness.Req{Method: "DELETE", Path: p, Fault: pre()}, harness.Req{Method: "MKCOL", Path: p, Fault: pre()}, harness.Req{Method: "PUT", Path: p, Body: "WXYZ", Fault: pre()})
+			for _, q := range paths {
+				for _, m := range []string{"COPY", "MOVE"} {
+					out = append(out, harness.Req{Method: m, Path: p, Header: map[string]string{"Destination": q, "Overwrite": "T"}, Fault: pre()})
+				}
+			}
 		}
 		// unclean spellings of source and destination (dot and dot-dot segments)
 		unclean := func(p string) []string {
